@@ -266,7 +266,7 @@ PROPS = {
                       '(precondition: the patterns are pairwise distinct — equal patterns would collapse in the IndexMap); relation_path_item fills, for every declared method, exactly that method\'s slot with an operation whose id, description, tags, parameters, '
                       'request body and responses are built from THAT method\'s transfer, and leaves every other slot empty; xfer_params lists every declared query parameter and every request header once, in order; '
                       'domain_request emits a request body exactly when the request content has a schema, with one media type (declared or default) carrying that schema and the content\'s examples; '
-                      'xfer_responses drops no declared range: every (status, media type) alternative with a schema has its media type, schema and examples in the response of its status (the default response when it has none) — '
+                      'xfer_responses gives every response object the headers and description of the last declared alternative of its status and drops no declared range: every (status, media type) alternative with a schema has its media type, schema and examples in the response of its status (the default response when it has none) — '
                       'on the pinned tree that obligation failed for status-less alternatives (genuine defect, repaired by fix 3b15650). '
                       'What the leaves mean (schemas, responses, request bodies, annotations), i.e. agreement with an independent reference semantics of the language, is not decided: level other.',
         'level_note': 'ASSUMED: openapiv3 struct field lists are mirrored mechanically from the vendored crate (payload types opaque), `#[derive(Default)]` gives None / empty; EnumMap iterates in the declaration order of atom::Method (R-local rewrite of the filter_map chain to `declared_transfers`); '
@@ -275,7 +275,7 @@ PROPS = {
         'design_ref': 'DESIGN.md section 12.14',
         'explanation': 'The plan listed C02 as not applicable (needs a reference semantics). The clause "nothing declared is silently dropped, duplicated, or attached to a different declaration than the one the source names" has a function-level core in the emitter: which slot an operation goes to and which transfer it is built from.',
         'assumptions': ['patterns of the resources are pairwise distinct (otherwise later resources overwrite earlier ones: not checked by the compiler)', 'shims listed in level_note'],
-        'not_decided': ['the evaluator side of the translation (that the evaluated spec means what the source says)', 'schemas (value_schema and below), content_headers, annotations, xfer_id; headers / description of a response shared by several alternatives (the last one wins)', 'uniqueness of URI patterns across resources', 'operationId uniqueness'],
+        'not_decided': ['the evaluator side of the translation (that the evaluated spec means what the source says)', 'schemas (value_schema and below), content_headers, annotations, xfer_id; that a response shared by several alternatives carries only the LAST alternative\'s headers / description is what the code does and what the contract states — whether the earlier ones should be merged is a language-design question, 'uniqueness of URI patterns across resources', 'operationId uniqueness'],
     },
     'C03': {
         'units': ['c03'],
